@@ -668,6 +668,8 @@ func ops(spec string) []Op {
 			res = append(res, Op{Kind: "wdone"})
 		case 'S':
 			res = append(res, Op{Kind: "stop"})
+		case 'T':
+			res = append(res, Op{Kind: "tickwait"})
 		}
 	}
 	return res
@@ -690,6 +692,20 @@ func corpusB() []History {
 		{Family: "b", NTx: 6, Parents: make([][]int, 6), Ops: ops("b1i b2f b3u b4c b5o b6m B C ra D c6 B D b1a b1i B C ri D")},
 		// confirmed answer as the last call, then Stop
 		{Family: "b", NTx: 2, Parents: [][]int{nil, {1}}, Ops: ops("b2a b1a B C ra C rc H D B C ra D S B c1")},
+		// Stop while a worker call is held open, then that call returns with
+		// every outcome class: Stop must return (the worker's report of a
+		// confirmed tx needs its quit alternative), with and without
+		// transactions left to send, block- and tick-triggered
+		{Family: "b", NTx: 3, Parents: [][]int{nil, {1}, {2}}, Ops: ops("b1a b2a b3a B C S rc D c1 b2a S")},
+		{Family: "b", NTx: 1, Parents: [][]int{nil}, Ops: ops("b1a B C S rc D c1")},
+		{Family: "b", NTx: 3, Parents: [][]int{nil, {1}, {2}}, Ops: ops("b1a b2a b3a B C ra C S b1a c3 rc D")},
+		{Family: "b", NTx: 2, Parents: [][]int{nil, {1}}, IntervalMs: 40, Ops: ops("b1a b2a T C S rc D c2")},
+		{Family: "b", NTx: 2, Parents: [][]int{nil, nil}, Ops: ops("b1a b2a B C S ra D")},
+		{Family: "b", NTx: 2, Parents: [][]int{nil, nil}, Ops: ops("b1a b2a B C S rm D")},
+		{Family: "b", NTx: 2, Parents: [][]int{nil, nil}, Ops: ops("b1a b2a B C S ri D")},
+		{Family: "b", NTx: 2, Parents: [][]int{nil, nil}, Ops: ops("b1a b2a B C S rf D")},
+		{Family: "b", NTx: 2, Parents: [][]int{nil, nil}, Ops: ops("b1a b2a B C S ru D")},
+		{Family: "b", NTx: 2, Parents: [][]int{nil, nil}, Ops: ops("b1a b2a B C S ro D")},
 	}
 }
 
